@@ -505,6 +505,22 @@ def method_of_dict_in_helper(ds): return ds.Select(lambda e: (helper_with_dict(e
 def missing_attr_of_instance(ds): return ds.Select(lambda e: CUTS.nothere + e.pt)
 def missing_method_of_instance(ds): return ds.Select(lambda e: CUTS.nothere(e.pt))
 def missing_attr_of_dict(ds): return ds.Select(lambda e: e.f(THR.nothere))
+# ... with FURTHER steps behind the attribute python does not find (a second attribute, a call, a subscript, as an argument)
+def missing_attr_two_steps(ds): return ds.Select(lambda e: e.pt > CUTS.nothere.deeper)
+def missing_attr_three_steps_called(ds): return ds.Select(lambda e: (CUTS.nothere.deeper.more(), e.x))
+def missing_attr_two_steps_argument(ds): return ds.Select(lambda e: e.jets.Select(lambda j: j.h(THR.nothere.deeper[0])))
+# a member of an IntEnum / (str, Enum) held in a variable or reached through an object: its .value / .name are python's
+class Level(enum.IntEnum):
+    LOW = 1
+    HIGH = 2
+class Mode(str, enum.Enum):
+    FAST = "fast"
+class Conf:
+    level = Level.HIGH
+    mode = Mode.FAST
+CONF = Conf()
+LVL = Level.HIGH
+def enum_member_steps(ds): return ds.Select(lambda e: e.f(LVL.value, LVL.name, CONF.level.value, CONF.mode.value, CONF.mode.name, LVL, CONF.level.real))
 K9 = 5
 def default_from_local(ds):
     # the default was computed where the lambda was made - from a local that a global of the same name does not know of
@@ -527,7 +543,7 @@ def object_routes(ctx):
     m = modgen.load(OBJECT_SRC, "c04obj")
     w = {"objects": True}
     for name in ("method_of_dict", "method_of_list", "method_of_instance", "method_of_closure_dict", "method_nested", "method_of_dict_in_helper", "missing_attr_of_instance",
-                 "missing_method_of_instance", "missing_attr_of_dict"):
+                 "missing_method_of_instance", "missing_attr_of_dict", "missing_attr_two_steps", "missing_attr_three_steps_called", "missing_attr_two_steps_argument"):
         ctx.case(f"object-route:{name}", True)
         try:
             s = getattr(m, name)(m.DS())
@@ -541,7 +557,7 @@ def object_routes(ctx):
         free = sorted(astx.free_names(lam) & {"THR", "RUNS", "CUTS", "local_map", "CUT5"})
         if free:
             ctx.violation("captured-name-left-in-query", f"{name}: no ValueError and the recorded lambda still names {free}: {astx.unparse(lam)[:160]}", w)
-    for name, want in (("attr_of_callable", [30.0, "AntiKt4", 12.5]), ("enum_class_constant", [30.0, "Tone"]), ("default_from_local", [9, 10]), ("default_of_def", [9, 10])):
+    for name, want in (("attr_of_callable", [30.0, "AntiKt4", 12.5]), ("enum_class_constant", [30.0, "Tone"]), ("enum_member_steps", [2, "HIGH", 2, "fast", "FAST", 2, 2]), ("default_from_local", [9, 10]), ("default_of_def", [9, 10])):
         ctx.case(f"object-route:{name}", True)
         try:
             s = getattr(m, name)(m.DS())
